@@ -259,10 +259,22 @@ func (a *actor) run(p *Peer, nops int) {
 					e = e2
 				}
 				added := model.NetworkManagementStateChangeTypeAdded
+				dd := p.DiscoveryData([]*PEnt{e}, &added, true)
+				if w.T.Bool(1, 3, "device-information-names-another-peer") {
+					// the device information of the announcement claims to be somebody else: who a
+					// peer is, is a matter of its connection
+					for _, q := range pr.Peers {
+						if q != p {
+							dd.DeviceInformation.Description.DeviceAddress.Device = util.Ptr(model.AddressDeviceType(q.Addr))
+							w.Probe("announcement-with-foreign-device-information")
+							break
+						}
+					}
+				}
 				cmd := model.CmdType{
 					Function:                            util.Ptr(model.FunctionTypeNodeManagementDetailedDiscoveryData),
 					Filter:                              []model.FilterType{*model.NewFilterTypePartial()},
-					NodeManagementDetailedDiscoveryData: p.DiscoveryData([]*PEnt{e}, &added, true),
+					NodeManagementDetailedDiscoveryData: dd,
 				}
 				await = p.SendCmd(p.NM().Address(), p.LocalNM(), model.CmdClassifierTypeNotify, nil, cmd, "entity-announced-again")
 				w.Probe("peer-announced-known-entity-again")
